@@ -77,6 +77,9 @@ type Input struct {
 	DSLevel bool `json:"ds_level,omitempty"`
 	// DocPaths: dotted document paths (compact terms / indices) handed to the resolvers
 	DocPaths []string `json:"doc_paths,omitempty"`
+	// ReplayPath: set only when replaying a failing input that names one path
+	ReplayPath []any `json:"replay_path,omitempty"`
+	ReplayPK   int   `json:"replay_pk,omitempty"`
 }
 
 type Scen struct {
@@ -311,8 +314,13 @@ func (e *Env) NewScen(in Input) *Scen {
 	return s
 }
 
-// Close restores the package default hasher and evaluates the counting oracle.
+// Close runs the path named by a replayed failing input (if any), restores the package
+// default hasher and evaluates the counting oracle.
 func (e *Env) Close(s *Scen) {
+	if s.In.ReplayPath != nil && s.Out.Class == "ok" && s.NoCoq == "" {
+		e.Proof(s, s.In.ReplayPK, s.In.ReplayPath, "replay")
+		e.EntryStep(s, s.In.ReplayPK, s.In.ReplayPath)
+	}
 	merklize.SetHasher(merklize.PoseidonHasher{})
 	if s.Cfg && s.DefCnt.N != 0 {
 		e.Rep.Fail(e.Prop+"-default-hasher-called", fmt.Sprintf("the package default hasher was called %d time(s) although a hasher is configured", s.DefCnt.N), s.In)
@@ -789,9 +797,22 @@ func ReadReplay(cfg *common.Config, l *ctxload.Loader) (Input, error) {
 	// failing inputs wrap the scenario; disagreeing cases are the scenario itself
 	var w struct {
 		Scenario *Input `json:"scenario"`
+		Path     []any  `json:"path"`
+		PK       int    `json:"pk"`
 	}
 	if json.Unmarshal(rf.Input, &w) == nil && w.Scenario != nil {
 		in = *w.Scenario
+		if w.Path != nil {
+			in.ReplayPK = w.PK
+			in.ReplayPath = []any{}
+			for _, x := range w.Path {
+				if fl, ok := x.(float64); ok {
+					in.ReplayPath = append(in.ReplayPath, int(fl))
+				} else {
+					in.ReplayPath = append(in.ReplayPath, x)
+				}
+			}
+		}
 	} else if err := json.Unmarshal(rf.Input, &in); err != nil {
 		return in, err
 	}
